@@ -36,10 +36,17 @@ pub fn sl_keyed<'a>(input: In<'a, (i32, i32)>) {
     let (batch_out, snap_out) = sliced! {
         let batch = use::batch(keyed, nondet!(/** the simulator owns the slice boundaries */));
         let snap = use::snapshot(counts, nondet!(/** the simulator owns the slice boundaries */));
-        (batch.entries(), snap.entries())
+        // the per-key order of the batch is made observable the way the type promises it:
+        // an ordered per-key fold
+        (
+            batch
+                .fold(q!(|| Vec::<i32>::new()), q!(|acc, x| acc.push(x)))
+                .entries(),
+            snap.entries(),
+        )
     };
     batch_out
-        .assume_ordering::<TotalOrder>(nondet!(/** harness observation shim: per-key order is what is checked */))
+        .assume_ordering::<TotalOrder>(nondet!(/** harness observation shim: compared as a set per slice */))
         .embedded_output("out0");
     snap_out
         .assume_ordering::<TotalOrder>(nondet!(/** harness observation shim: compared as a set per slice */))
